@@ -21,6 +21,7 @@ import (
 //verif:stub syscall.Close verifK11Close
 //verif:stub syscall.Write verifK11Write
 //verif:stub errors.Is verifErrorsIs11
+//verif:stub github.com/cloudwego/netpoll.EpollWait verifK11EpollWait
 
 const (
 	l11Inputs = iota + 1
@@ -297,6 +298,13 @@ func verifCheck11(fd int, flags uint32, pending0 int, wasInuse bool) {
 		return
 	}
 	verifAssert(nHup <= 1, "C11/hangup-reported-twice")
+	// a hang-up flagged by the kernel is reported in this dispatch unless bytes were read for
+	// the descriptor (then the level-triggered flag comes back with the next batch)
+	// (after a hard read error inside the drain loop the code reports on the next round: the
+	// flag is level-triggered and the next read fails again; not asserted here)
+	if flags&(ev11HUP|ev11RDHUP) != 0 && sumReadv == 0 && !sawReadErr {
+		verifAssert(nHup == 1, "C11/hangup-flag-not-reported")
+	}
 	verifAssert(sumAck == sumReadv, "C11/delivered-bytes-differ-from-kernel")
 	if nHup == 1 {
 		verifAssert(nDel >= 1 && delAt < hupAt, "C11/hangup-before-deregistration")
@@ -321,7 +329,21 @@ func verifHarness_C11_handler1() { verifHandler11(1) }
 //verif:replay interp
 func verifHarness_C11_handler2() { verifHandler11(2) }
 
+// A batch of two: the first event is an ordinary readable connection with bytes to read, the
+// second one has an arbitrary flag word. Nothing decided for the first may leak into the
+// dispatch of the second (per-event state of the loop).
+//
+//verif:bounds batch of 2 events: first = EPOLLIN with 1..64 unread bytes, second = arbitrary 32-bit flag word; <= 6 kernel calls in total
+//verif:loop 60
+//verif:replay interp
+func verifHarness_C11_pair() { verifHandler11(-2) }
+
 func verifHandler11(n int) {
+	firstFixed := false
+	if n < 0 {
+		n = -n
+		firstFixed = true
+	}
 	p := verifPoll11(2)
 	k := verifK11
 	events := make([]epollevent, n)
@@ -337,8 +359,16 @@ func verifHandler11(n int) {
 		verifAssume(pend[i] <= 1<<20)
 		// level-triggered: unread bytes imply EPOLLIN
 		verifAssume(pend[i] == 0 || flags[i]&ev11IN != 0)
+		if firstFixed && i == 0 {
+			verifAssume(flags[i] == ev11IN)
+			verifAssume(pend[i] >= 1)
+			verifAssume(pend[i] <= 64)
+		}
 		k.pending[i] = pend[i]
 		inuse[i] = verifNondetBool("inuse")
+		if firstFixed && i == 0 {
+			verifAssume(inuse[i])
+		}
 		if !inuse[i] {
 			ops[i].state = 0
 		}
@@ -424,5 +454,60 @@ func verifHarness_C11_wakeup() {
 		verifAssert(len(k.closes) == 0, "C11/descriptor-closed-without-close")
 	}
 	verifAssert(p.wop.state == 1, "C11/slot-token-not-returned")
+	verifReach("end")
+}
+
+// The Wait loop around the handler: the batch handed to the handler is the batch the kernel
+// reported, also when it fills the event array exactly (the array grows for the *next* wait).
+// The kernel ghost reports n entries (1, size-1 or size of the current array), marks the first
+// and the last one, and the recording handler checks the marks.
+type verifWait11 struct {
+	waits   int
+	handled int
+	lastN   int
+}
+
+var verifW11 *verifWait11
+
+func verifK11EpollWait(epfd int, events []epollevent, msec int) (int, error) {
+	w := verifW11
+	w.waits++
+	if w.waits > 2 {
+		return -1, syscall.EBADF
+	}
+	size := len(events)
+	n := size
+	switch verifPick("epollwait.n", 0, 2) {
+	case 0:
+		n = 1
+	case 1:
+		n = size - 1
+	}
+	events[0].events = 0x55
+	events[n-1].events = 0x55
+	w.lastN = n
+	return n, nil
+}
+
+//verif:bounds 2 wake-ups; batch sizes 1, size-1, size of the event array (128, then 256 after growth); recording handler
+//verif:loop 600
+//verif:replay interp
+func verifHarness_C11_wait() {
+	verifK11 = &verifKern11{}
+	verifW11 = &verifWait11{}
+	p := &defaultPoll{}
+	p.fd = 3
+	p.opcache = newOperatorCache()
+	p.Reset = p.reset
+	p.Handler = func(evs []epollevent) bool {
+		w := verifW11
+		w.handled++
+		verifAssert(len(evs) == w.lastN, "C11/batch-length-differs-from-kernel")
+		verifAssert(evs[0].events == 0x55 && evs[len(evs)-1].events == 0x55, "C11/batch-replaced-before-dispatch")
+		return false
+	}
+	err := p.Wait()
+	verifAssert(err != nil, "C11/wait-returned-nil-after-kernel-error")
+	verifAssert(verifW11.handled == 2, "C11/batch-not-dispatched")
 	verifReach("end")
 }
